@@ -20,8 +20,8 @@ mod verif_demo_c14_xls_ptgarea {
     #[test]
     fn verif_demo_xls_ptgarea_relative_flags_ignored_and_not_masked() {
         // A1:B2, everything relative (what SUM(A1:B2) stores): expected "A1:B2"
-        assert_eq!(pf(&[0x25, 0, 0, 1, 0, 0, 0xC0, 1, 0xC0]).unwrap(), "$USM$1:$USN$2");
+        assert_eq!(pf(&[0x25, 0, 0, 1, 0, 0, 0xC0, 1, 0xC0]).unwrap(), "$BTRM$1:$BTRN$2");
         // PtgArea3d, ixti 1 -> S0: expected "S0!A1:B2"
-        assert_eq!(pf(&[0x3B, 1, 0, 0, 0, 1, 0, 0, 0xC0, 1, 0xC0]).unwrap(), "S1!$USM$1:$USN$2");
+        assert_eq!(pf(&[0x3B, 1, 0, 0, 0, 1, 0, 0, 0xC0, 1, 0xC0]).unwrap(), "S1!$BTRM$1:$BTRN$2");
     }
 }
